@@ -260,6 +260,17 @@ func genAnchoredOps(t *rapid.T, published bool, label string) ([]*operation.Anch
 		// a repeated canonical reference: the same operation seen again (e.g. through another anchor)
 		if published && rapid.IntRange(0, 3).Draw(t, label+"-dup") == 0 {
 			cp := *op
+			// seen again, possibly in another anchor: identical but for its (time, number); the earliest one represents the group
+			if rapid.Bool().Draw(t, label+"-dupElsewhere") {
+				for try := 0; try < 20; try++ {
+					t2, n2 := uint64(rapid.IntRange(0, 4).Draw(t, label+"-dupTime")), uint64(rapid.IntRange(0, 4).Draw(t, label+"-dupNum"))
+					if !used[[2]uint64{t2, n2}] {
+						used[[2]uint64{t2, n2}] = true
+						cp.TransactionTime, cp.TransactionNumber = t2, n2
+						break
+					}
+				}
+			}
 			ops = append(ops, &cp)
 		}
 	}
